@@ -7,7 +7,7 @@
 // Layers: L1 Noise session, L2 TLS conn, L3 pnet protected conn, L4 yamux, L5 the real
 // upgrader (security x PSK x yamux) and two BasicHosts (swarm streams + lazy
 // negotiation wrapper), all over in-memory pipes inside synctest bubbles; L6 (thorough)
-// real libp2p hosts over loopback TCP / WS / QUIC / shared TCP listener.
+// real libp2p hosts over loopback TCP / WS / QUIC / WebTransport / WebRTC / shared TCP listener.
 package c02
 
 import (
@@ -54,7 +54,8 @@ func TestMain(m *testing.M) {
 		"frame sizes of each layer (Noise 65519, TLS 16384, yamux 65524) are used only to aim the generator and to label cases, never in the verdict of untampered cases",
 		"tamper verdicts rely on the wire framing (Noise: 2-byte length prefix, 16-byte tag; TLS 1.3: 5-byte header, 17 bytes overhead) to locate the first tampered frame's plaintext offset (an upper bound for TLS)",
 		"a truncation that removes whole trailing frames is reported to the reader as plain EOF by Noise and TLS-at-record-boundary; EOF counts as the error the statement asks for",
-		"L6 (real sockets) runs in the thorough tier only; WebRTC and WebTransport are not covered",
+		"L6 (real loopback sockets: TCP, WebSocket, QUIC, WebTransport, WebRTC-direct, and TCP/WS behind the shared TCP listener) runs in the thorough tier only, with the default stack of each transport; a configuration that cannot be set up in the environment is skipped and labelled config-unavailable",
+		"streams of one muxed connection are accepted in the order in which their first frames were sent (L4, L5 upgrader); host-level layers route streams by protocol id instead",
 	)
 	hx.Main(m)
 }
